@@ -265,11 +265,23 @@ class Gen:
 class Ser:
     """Tree -> source text, recording every expression occurrence."""
 
-    def __init__(self) -> None:
+    def __init__(self, pretty: bool = False) -> None:
         self.buf: list[str] = []
         self.pos = 0
         self.occ: list[dict] = []       # expression occurrences
         self.stack: list[int] = []
+        self.pretty = pretty            # newlines / indentation / non-ASCII
+        self.depth = 0
+        self.nattr = 0
+
+    def sp(self) -> str:
+        """Separator before a statement attribute."""
+        if not self.pretty:
+            return " "
+        self.nattr += 1
+        if self.nattr % 2:
+            return "\n" + " " * (2 * self.depth + 4)
+        return "  " if self.nattr % 3 == 0 else " "
 
     def w(self, s: str) -> None:
         self.buf.append(s)
@@ -340,7 +352,7 @@ class Ser:
         pre = "" if n["talns"] else "tal:"
         for s in n["order"]:
             if s == "define":
-                self.w(' %sdefine="' % pre)
+                self.w(self.sp() + '%sdefine="' % pre)
                 for i, (scope, name, e) in enumerate(n["define"]):
                     if i:
                         self.w("; ")
@@ -348,25 +360,25 @@ class Ser:
                     self.expr(e, "define")
                 self.w('"')
             elif s in ("condition", "switch", "case"):
-                self.w(' %s%s="' % (pre, s))
+                self.w(self.sp() + '%s%s="' % (pre, s))
                 self.expr(n[s], s)
                 self.w('"')
             elif s == "repeat":
-                self.w(' %srepeat="%s ' % (pre, n["repeat"][0]))
+                self.w(self.sp() + '%srepeat="%s ' % (pre, n["repeat"][0]))
                 self.expr(n["repeat"][1], "repeat")
                 self.w('"')
             elif s in ("content", "replace"):
                 mode, e = n[s]
-                self.w(' %s%s="%s' % (pre, s, mode + " " if mode else ""))
+                self.w(self.sp() + '%s%s="%s' % (pre, s, mode + " " if mode else ""))
                 self.expr(e, s)
                 self.w('"')
             elif s == "omit":
-                self.w(' %somit-tag="' % pre)
+                self.w(self.sp() + '%somit-tag="' % pre)
                 if n["omit"] != "":
                     self.expr(n["omit"], "omit")
                 self.w('"')
             elif s == "attributes":
-                self.w(' %sattributes="' % pre)
+                self.w(self.sp() + '%sattributes="' % pre)
                 for i, (name, e) in enumerate(n["attributes"]):
                     if i:
                         self.w("; ")
@@ -375,12 +387,20 @@ class Ser:
                 self.w('"')
             elif s == "on_error":
                 mode, e = n["on_error"]
-                self.w(' %son-error="%s' % (pre, mode + " " if mode else ""))
+                self.w(self.sp() + '%son-error="%s' % (pre, mode + " " if mode else ""))
                 self.expr(e, "on_error")
                 self.w('"')
         self.w(">")
+        self.depth += 1
         for c in n["children"]:
+            if self.pretty:
+                self.w("\n" + "  " * self.depth)
+                if c["t"] == "text" and self.depth % 2:
+                    self.w("\u00e9\u00df ")
             self.node(c)
+        self.depth -= 1
+        if self.pretty and n["children"]:
+            self.w("\n" + "  " * self.depth)
         self.w("</" + tag + ">")
 
     def source(self, tree: dict) -> str:
@@ -394,8 +414,8 @@ class Ser:
         return src
 
 
-def serialise(tree: dict) -> tuple[str, list]:
-    s = Ser()
+def serialise(tree: dict, pretty: bool = False) -> tuple[str, list]:
+    s = Ser(pretty)
     src = s.source(tree)
     return src, s.occ
 
